@@ -620,7 +620,7 @@ func main() {
 						r.HarnessError("replay: %v", err)
 					}
 				} else {
-					fmt.Println("replay: no violation reproduced")
+					vk.NoRepro()
 				}
 			}
 		}
